@@ -40,6 +40,20 @@ pub fn compute(world: &World, trace: &[Rec], v: &Violation) -> Vec<String> {
             tags.push("diff:array-shape-differs".into());
         }
     }
+    // every cell whose value differs carries a date/time number format (the clipboard
+    // carries the text the editor shows; for such cells that text is a date without fraction)
+    let value_cells: Vec<&String> = v.diff.iter().filter(|l| l.facet == "cell.value").map(|l| &l.at).collect();
+    if !value_cells.is_empty()
+        && value_cells.iter().all(|at| match deps::parse_at(at) {
+            Some((s, r, c)) => world.primary.model().get_style_for_cell(s, r, c).map(|st| {
+                let f = st.num_fmt.to_lowercase();
+                f.contains('y') || f.contains('d') || f.contains("h:") || f.contains("mm")
+            }).unwrap_or(false),
+            None => false,
+        })
+    {
+        tags.push("diff:value-cells-have-date-format".into());
+    }
     // re-typing (C18/C10)
     if let Some(crate::ev::Ev::Retype { sheet, row, col }) = trace.get(v.culprit_event).map(|r| &r.ev) {
         if trace[..v.culprit_event.min(trace.len())].iter().any(|r| matches!(r.ev, crate::ev::Ev::SetLocale { .. } | crate::ev::Ev::SetLanguage { .. }) && r.result == "ok") {
